@@ -82,6 +82,8 @@ func (c25) Generate(r *engine.Rand, index int, tier string) *engine.Scenario {
 		shape = 1 + r.Intn(len(freeShapes))
 		if r.Bool() {
 			shape = 1 + r.Intn(2)
+		} else if r.Bool() {
+			shape = freeShapeClock + r.Intn(2) // cartridges with the clock, programs that latch and read it
 		}
 	}
 	sc.SetP("n", int64(n))
@@ -93,6 +95,9 @@ func (c25) Generate(r *engine.Rand, index int, tier string) *engine.Scenario {
 			w.Video = true
 		}
 		w.Debug = r.Chance(1, 4) // instances of different configurations
+		if shape >= freeShapeClock {
+			w.Kind = "prog"
+		}
 		w.store(sc, fmt.Sprintf("i%d.", i))
 	}
 	total := uint64(r.Range(1, 4)) * 17556
@@ -100,6 +105,9 @@ func (c25) Generate(r *engine.Rand, index int, tier string) *engine.Scenario {
 	if n > 3 {
 		total = 17556
 		gran = r.Range(1, 2)
+	}
+	if shape >= freeShapeClock {
+		gran = 0
 	}
 	sc.Cycles = total
 	sc.SetP("gran", int64(gran))
@@ -149,7 +157,7 @@ func (c25) Generate(r *engine.Rand, index int, tier string) *engine.Scenario {
 		switch gran {
 		case 0:
 			k = uint64(r.Range(1, 3))
-			if len(sc.Events) > 6000 {
+			if len(sc.Events) > 6000 && (shape < freeShapeClock || len(sc.Events) > 40000) {
 				k = uint64(r.Range(100, 4000))
 			}
 		case 1:
@@ -399,6 +407,11 @@ func (c25) Execute(sc *engine.Scenario) *engine.Result {
 		in.t.finish()
 		solo[i] = in.t.points
 		in.m.GB.Cleanup() // every instance is released the way Run releases it
+		if w := loadWorkload(sc, fmt.Sprintf("i%d.", i)); !w.Audio && !w.Video {
+			// ... and once more by its owner (with no outputs attached a second release has nothing to do)
+			in.m.GB.Cleanup()
+			res.Probe("instance_released_twice")
+		}
 	}
 	// interleaved run
 	insts := make([]*c25inst, n)
